@@ -86,7 +86,7 @@ def gen_deco(rng: Prng) -> list:
             out.append(["color", rng.choice(COLORS)])
         else:
             out.append(["comment", rng.choice(["", " Root", " R-1-2", " (1 2 3 4)", " | )", " End of split", " End of split",
-                                               " 25 µm", " Ástrocyte Ý", " слой А-я", " 束 神经元", " naïve – “quoted”"])])
+                                               " 25 µm", " was\x0c(9 9 9 9)", " vt\x0b| nel\x85) ls\u2028( 1 2 3 4 )", " fs\x1c(", " Ástrocyte Ý", " слой А-я", " 束 神经元", " naïve – “quoted”"])])
     return out
 
 
@@ -255,6 +255,16 @@ def convert(world: World, text: str, variant: dict, tag: str, eio_frac=None):
         if variant.get("call", 0) % 2:
             return NeurolucidaAscToSwc()(path)
         return NeurolucidaAscToSwc.convert(path)
+    if src == "wrapper" and variant.get("call", len(text)) % 4 == 3 and eio_at is None:
+        # a stream opened on a file DESCRIPTOR (open(fd), os.fdopen, TemporaryFile, a pipe): its `.name` is an int
+        import os as _os
+
+        rel = f"{tag}.fd.asc"
+        path = world.put(rel, text.encode("utf-8"))
+        fd = _os.open(path, _os.O_RDONLY)
+        with open(fd, "r", encoding="utf-8") as stream:
+            world.probe("c15.stream_on_a_file_descriptor")
+            return NeurolucidaAscToSwc.from_stream(stream)
     if src == "wrapper":
         return NeurolucidaAscToSwc.from_stream(world.text_wrapper_source(text.encode("utf-8"), plan, "utf-8"))
     return NeurolucidaAscToSwc.from_stream(world.string_source(text, eio_at))
